@@ -124,7 +124,7 @@ impl World {
                 }
                 // side record: must exist as long as the box or any Weak exists; released exactly then
                 if ob.side_addr != 0 {
-                    let weak_n = World::weak_count_model(&m, i as ObjId) + if ob.kind == ObjKind::Map { m.cl_action.iter().flatten().filter(|a| m.actions[**a as usize].map == i as ObjId).count() as u32 } else { 0 };
+                    let weak_n = World::weak_count_model(&m, i as ObjId) + if ob.kind == ObjKind::Map { m.cl_action.iter().flatten().filter(|a| m.actions[**a as usize].map == i as ObjId).count() as u32 + ob.bulk_cleanables } else { 0 };
                     let box_gone = st != BlockState::Live;
                     let should_be_free = box_gone && weak_n == 0;
                     let sst = alloc::block(ob.side_addr).state;
@@ -433,6 +433,18 @@ impl World {
 
     fn check_cleaners(&self) {
         let m = self.m.borrow();
+        for (i, ob) in m.objs.iter().enumerate() {
+            if ob.kind != ObjKind::Map || ob.bulk_registered == 0 {
+                continue;
+            }
+            let owner = &m.objs[ob.owner.unwrap() as usize];
+            if ob.bulk_runs > ob.bulk_registered || (owner.status == Status::Dropped && !owner.tainted && !ob.tainted && ob.bulk_runs != ob.bulk_registered) {
+                let msg = format!("cleaner map {}: {} of {} actions registered in bulk have run (owner is {:?})", i, ob.bulk_runs, ob.bulk_registered, owner.status);
+                drop(m);
+                self.fail("O-CLEAN.bulk", msg);
+                return;
+            }
+        }
         for (uid, a) in m.actions.iter().enumerate() {
             if !a.registered || a.runs > 0 {
                 continue;
